@@ -52,6 +52,9 @@ type Ctx struct {
 	Only    string // when non-empty: execute only this case id
 	SkipTo  int    // skip cases with ordinal < SkipTo (restart after a crash)
 	WorkDir string
+	// ResultPath is where the worker writes its result (set by WorkerMain; used by GiveUp).
+	ResultPath string
+	runaways   int
 
 	mu       sync.Mutex
 	log      *os.File
@@ -324,6 +327,22 @@ func (c *Ctx) WriteResult(path string, complete bool) error {
 		return err
 	}
 	return os.Rename(tmp, path)
+}
+
+// Runaway is called after a violation that left a goroutine of the code under test running for ever (a hang): such
+// goroutines keep burning CPU and memory, so after the second one the shard stops — its findings so far are reported,
+// the remaining cases of this shard are not run (noted in the evidence) — instead of spending minutes per further case.
+func (c *Ctx) Runaway() {
+	c.runaways++
+	if c.runaways < 2 || c.Only != "" {
+		return
+	}
+	c.Note(fmt.Sprintf("shard %d stopped early after %d cases that never returned (their goroutines cannot be stopped)", c.Shard, c.runaways))
+	c.Count("shards_stopped_after_hangs", 1)
+	if c.ResultPath != "" {
+		c.WriteResult(c.ResultPath, true)
+	}
+	os.Exit(0)
 }
 
 // Guard runs f and converts a panic into (panicked=true, site, message, stack).
